@@ -196,7 +196,7 @@ async fn run_tcp_system_inner(plan: &Plan, atomic_handshake: bool, via_port: u16
         let ended = |o: &FlowObs| (o.app.end.is_some() || o.app.closed_ns.is_some()) && (o.target.end.is_some() || o.target.closed_ns.is_some() || o.target_accepts == 0);
         if plan.flows.iter().enumerate().all(|(ix, f)| skipped(f) || ended(&obs[ix].lock().unwrap())) {
             tokio::time::sleep(Duration::from_secs(if plan.config.transport == Transport::Quic { 50 } else { 20 })).await;
-            if plan.config.transport == Transport::Quic && plan.knobs.dgram_loss_pm > 0 {
+            if plan.config.transport == Transport::Quic && (plan.knobs.dgram_loss_pm > 0 || plan.extra.get("quic_outage").is_some_and(|v| v.is_object())) {
                 // a QUIC connection whose peer has gone is given up by quinn's timers (30 s idle time-out, then the closing /
                 // draining period of three probe time-outs, which repeated loss has backed off): on a lossy datagram link that
                 // was seen to take 65 s after the connection's last packet. Those are the transport's clocks, not the relay's:
